@@ -15,7 +15,7 @@ from ..common import Violation
 PROP = "C02"
 CONSTRUCTORS = {"Transpose", "Adjoint", "NoDispatch", "Product", "Sum", "Kronecker", "KronSum", "BlockDiag",
                 "Concatenated", "Sliced"}
-ACTS = CONSTRUCTORS | {"op_T", "op_H", "Annot"}
+ACTS = CONSTRUCTORS | {"op_T", "op_H", "Annot", "GramWin", "Gram"}
 TOWERS = ["".join(w) for n in (1, 2, 3) for w in itertools.product("TH", repeat=n)]
 
 
